@@ -305,6 +305,24 @@ pub fn gen_funnel(rng: &mut StdRng) -> Prog {
             ops.push(Op::Add { r: rr, w: ww, deps: vec![], t, name: if rng.gen_bool(0.2) { String::new() } else { format!("f{}", k) } });
             k += 1;
         }
+        // a dependency chain: resource-free short systems, each depending on the one before (now and then on an
+        // earlier member too) - the planner queues them up in ONE group as long as that improves the balance, so the
+        // group reaches its capacity through dependencies alone; the member after that must open a new STAGE
+        if rng.gen_bool(0.6) {
+            let len = rng.gen_range(3..=9);
+            let mut prev: Vec<String> = Vec::new();
+            for _ in 0..len {
+                let name = format!("q{}", k);
+                k += 1;
+                let mut deps: Vec<String> = prev.last().cloned().into_iter().collect();
+                if prev.len() > 1 && rng.gen_bool(0.2) {
+                    deps.push(prev[rng.gen_range(0..prev.len() - 1)].clone());
+                }
+                let t = *[1u8, 1, 1, 2].choose(rng).unwrap();
+                ops.push(Op::Add { r: vec![], w: vec![], deps, t, name: name.clone() });
+                prev.push(name);
+            }
+        }
         // systems that depend on members of the (possibly full) groups and are otherwise compatible
         let named: Vec<String> = ops
             .iter()
